@@ -11,7 +11,7 @@ import (
 // rchain is a block chain with reorganisations: ground truth for the watchers.
 type rchain struct {
 	mu      sync.Mutex
-	base    uint32   // height of blocks[0]
+	base    uint32    // height of blocks[0]
 	blocks  []*rblock // best chain
 	stale   map[string]*rblock
 	mempool map[string]bool
